@@ -590,7 +590,7 @@ def translate_tables():
     def cls_size(st):                      # vsosc_null / ring_length: pos += 8 / 4 / string / blob
         if re.search(r"pos\s*\+=\s*8", st):
             return 8
-        if "strlen" in st or re.search(r"while\s*\(\s*deref\(\+\+pos", st):
+        if "strlen" in st or re.search(r"while\s*\(\s*deref\(", st):
             return 1                       # string
         if re.search(r"b\.len|i\s*\|=", st):
             return 2                       # blob
